@@ -481,6 +481,19 @@ func vpH_c16_tags() {
 	}
 	free := vpStr(1, "a-c") + vpStrUpTo(1, "a-c")
 	b.set(free, "f")
+	// an input key spelled like the lower-cased name of the inline field is an
+	// ordinary unknown key
+	restKind := vpInt(0, 3)
+	switch restKind {
+	case 1:
+		b.set("rest", "r")
+	case 2:
+		b.set("rest", nil)
+	case 3:
+		inner := NewMap[string, any](1)
+		inner.Set("in", "v")
+		b.set("rest", inner)
+	}
 
 	dst := vpT5{Flagged: "SF", Named: "SN", Flow: []string{"S"}}
 	err := Unmarshal(b.m, &dst)
@@ -502,6 +515,20 @@ func vpH_c16_tags() {
 		want = 2
 		v, ok := dst.Rest[""]
 		vpAssert(ok && v == any("e"), "the empty input key is nobody's key: it goes to the inline map")
+	}
+	if restKind != 0 {
+		want++
+		rv, rok := dst.Rest["rest"]
+		vpAssert(rok, "a key spelled like the inline field's own name is kept in the inline map under that key")
+		switch restKind {
+		case 1:
+			vpAssert(rv == any("r"), "... with its value")
+		case 2:
+			vpAssert(rv == nil, "... also when its value is null")
+		case 3:
+			im, isMap := rv.(*Map[string, any])
+			vpAssert(isMap && im.Len() == 1, "... also when its value is a mapping (not flattened into the inline map)")
+		}
 	}
 	v, ok := dst.Rest[free]
 	vpAssert(ok && v == any("f") && len(dst.Rest) == want, "keys no field names go to the inline map, and nothing else does")
